@@ -1,11 +1,11 @@
 CHECK = dict(
     level='model_checking', engine='vsched',
     parts=[dict(name='c07rb', src=['harness/c05_ringbuf.c'], cflags=['-DC07', '-Wno-format-truncation'], workers=64,
-                objs=[('@VERIF@/harness/c05_scn.c', ['-fsanitize=thread'])], deadline=dict(quick=400, thorough=3000)),
+                objs=[('@VERIF@/harness/c05_scn.c', ['-fsanitize=thread', '-Dmemset=vs_memset', '-Dmemcpy=vs_memcpy', '-Dmemmove=vs_memmove'])], deadline=dict(quick=400, thorough=3000)),
            dict(name='c07mq', src=['harness/c04_messageq.c'], cflags=['-DC07', '-Wno-format-truncation'], workers=64,
-                objs=[('@VERIF@/harness/c04_scn.c', ['-fsanitize=thread'])], deadline=dict(quick=400, thorough=3000)),
+                objs=[('@VERIF@/harness/c04_scn.c', ['-fsanitize=thread', '-Dmemset=vs_memset', '-Dmemcpy=vs_memcpy', '-Dmemmove=vs_memmove'])], deadline=dict(quick=400, thorough=3000)),
            dict(name='c07fb', src=['harness/c06_fibre.c'], cflags=['-DC07', '-DPROP=6', '-Wno-format-truncation'], workers=64,
-                objs=[('@VERIF@/harness/c06_scn.c', ['-fsanitize=thread'])], deadline=dict(quick=400, thorough=3000)),
+                objs=[('@VERIF@/harness/c06_scn.c', ['-fsanitize=thread', '-Dmemset=vs_memset', '-Dmemcpy=vs_memcpy', '-Dmemmove=vs_memmove'])], objs_lib=True, deadline=dict(quick=400, thorough=3000)),
            # not a deciding step: the ring buffer and message queue bodies as real free-running pthreads under the real
            # ThreadSanitizer runtime for a few seconds, as an independent cross-check of the detector (thorough tier only)
            dict(name='c07tsan', src=['harness/c07_tsan_free.c'], cflags=['-fsanitize=thread', '-pthread', '-O1'], workers=1,
@@ -33,5 +33,12 @@ CHECK = dict(
 )
 
 # build variants (bin/checks.py): only -DNDEBUG (side effects inside assert) - the schedule exploration is too expensive to repeat on every build
-CHECK['variants'] = ['c07rb', 'c07mq', 'c07fb']
-CHECK['variant_tiers'] = {'gcc -Os': (), 'gcc -O0': (), 'clang -O2': (), 'gcc -O2 -DNDEBUG': ('quick',)}
+CHECK['variants'] = [('c07rb', ['gcc -O2 -DNDEBUG', 'gcc -Os']), ('c07mq', ['gcc -O2 -DNDEBUG']), ('c07fb', ['gcc -O2 -DNDEBUG'])]
+CHECK['variant_tiers'] = {'gcc -O2 -DNDEBUG': ('quick',), 'gcc -Os': ('quick', 'thorough')}
+# the fallback definitions of <librfn/atomic.h> (compilers without <stdatomic.h>) are part of what the property is anchored in
+for _p in list(CHECK['parts']):
+    if _p['name'] in ('c07rb', 'c07mq'):
+        _q = dict(_p); _q['name'] = _p['name'] + '_noatomics'; _q['variant'] = 'gcc -O2 -D__STDC_NO_ATOMICS__'
+        _q['cflags'] = list(_p.get('cflags', [])) + ['-D__STDC_NO_ATOMICS__']
+        if _p['name'] == 'c07mq': _q['tiers'] = ('thorough',)	# the message-queue exploration is the expensive one
+        CHECK['parts'].append(_q)
